@@ -31,7 +31,7 @@ TextKids(e) == SelectSeq(e.ch, IsText)
 (******************************** options ***********************************)
 \* o: [lower, snake, asmap, keep, escdec, tagseq : BOOLEAN, apfx, kpfx : STRING, cast : BOOLEAN]
 TrimSet(o) == IF o.keep THEN {"\t", "\n", "\r"} ELSE {"\t", "\n", "\r", " "}
-Cs1(s) == IF s = "" THEN <<>> ELSE <<s>>      \* prefixes are single characters or empty
+Cs1(s) == IF s = "" THEN <<>> ELSE IF Len(s) = 1 THEN <<s>> ELSE CharsOf(s)      \* a prefix as a character sequence (empty, one character, or several)
 TextKey(o) == Cs1(o.kpfx) \o <<"t", "e", "x", "t">>
 SeqKeyC == <<"_", "s", "e", "q">>
 FoldName(o, cs) == LET s == IF o.snake THEN Snake(cs) ELSE cs IN IF o.lower THEN ToLower(s) ELSE s
